@@ -7,13 +7,17 @@
      wf ar b   = b lies inside arena b of the arena list ar, 0 <= start < stop <= size,
                  start and stop are multiples of 8;
      disj x y  = different arenas or non-overlapping extents;
-     valid_run = every Free/FreeDeferred in the sequence names a block that is live at that
-                 point and not already in the pending list; every Malloc size is in [0, maxsize);
+     valid_run = every Free/FreeDeferred in the sequence, and every free issued from inside a
+                 MallocRe/FreeRe, names a block that is live at that point and not already in the
+                 pending list (and not the block the outer free is freeing); every Malloc size is
+                 in [0, maxsize);
+     MallocRe n p v / FreeRe b p v = malloc(n) / free(b) during which, at point p, the same thread
+                 calls free(v) (a finaliser run by the garbage collector);
      pg_ok pg  = 0 < pg and pg mod 8 = 0 (mmap.PAGESIZE);
      HeapInv   = the invariant (indexes consistent, partition, coalesced, pending list sane). *)
 From Coq Require Import ZArith List Bool Lia.
 From BV Require Import Lib.PyVal Gen.K_heap Gen.G_heap Model.Heap.
-From BV Require Import Proofs.HeapLib Proofs.HeapIdx Proofs.HeapGeo Proofs.HeapInv Proofs.HeapProofs.
+From BV Require Import Proofs.HeapLib Proofs.HeapIdx Proofs.HeapGeo Proofs.HeapRe Proofs.HeapInv Proofs.HeapProofs.
 Import ListNotations.
 Open Scope Z_scope.
 
@@ -43,8 +47,16 @@ Theorem C14_code_arena_length : forall ns size k, 0 <= k ->
 Proof. intros. split; [apply gen_arena_length; assumption|split; [apply gen_next_size|apply gen_search]]. Qed.
 Print Assumptions C14_code_arena_length.
 
+(* the lock Heap.__init__ creates is not re-entrant (threading.Lock), and free() takes it with a
+   non-blocking acquire whose failure branch only appends to the pending list: the two facts
+   the model of the re-entrant free rests on, read from heap.py on this run *)
+Theorem C14_code_lock : G_heap.lock_reentrant = Heap.lock_reentrant /\ G_heap.free_trylock = true.
+Proof. exact gen_lock. Qed.
+Print Assumptions C14_code_lock.
+
 (* ---- all histories ---- *)
-(* every sequence of malloc / free / deferred free with valid frees, from a fresh Heap(size),
+(* every sequence of malloc / free / deferred free / malloc or free with a free issued from
+   inside it by the same thread, with valid frees, from a fresh Heap(size),
    runs without any exception and ends in a state satisfying the invariant *)
 Theorem C14_invariant : forall pg size ops, pg_ok pg ->
   valid_run pg (heap_init size) ops ->
@@ -146,10 +158,70 @@ Print Assumptions C14_deferred_only_queues.
 
 (* ... and the next malloc/free then behaves exactly as if the block had been freed immediately *)
 Theorem C14_deferred : forall pg h b o, HeapInv h -> pending h = [] ->
-  In b (alloc h) -> (forall c, o <> FreeDeferred c) ->
+  In b (alloc h) -> (exists n, o = Malloc n) \/ (exists c, o = Free c) ->
   step pg (free_deferred h b) o = (do xh <- step pg h (Free b); step pg (snd xh) o).
-Proof. exact deferred_equals_immediate. Qed.
+Proof.
+  intros pg h b o HI Hp Hb Ho. apply deferred_equals_immediate; try assumption.
+  destruct Ho as [[n ->]|[c ->]]; exact I.
+Qed.
 Print Assumptions C14_deferred.
+
+(* ---- a free issued from inside malloc / free by the same thread (garbage collection) ---- *)
+(* with the lock the code creates, free(v) called by a finaliser while this thread is inside
+   malloc(n) -- at ANY of the points: lock just taken, pending list drained, block found, inside
+   the _free of the remainder (left neighbour absorbed / right neighbour absorbed / merged block
+   registered), block recorded as live -- only queues v: the outcome is exactly the one of
+   "deferred free, then malloc" (finaliser before the drain) or "malloc, then deferred free"
+   (anywhere later).  Equality of results and complete states, no hypothesis. *)
+Theorem C14_nested_free_in_malloc : forall pg p v h n,
+  malloc_re lock_reentrant pg (Some (p, v)) h n =
+  if rpoint_eqb p RLocked then malloc pg (free_deferred h v) n
+  else do bh <- malloc pg h n; OK (fst bh, free_deferred (snd bh) v).
+Proof. exact nested_free_in_malloc. Qed.
+Print Assumptions C14_nested_free_in_malloc.
+
+(* the same for a finaliser running while this thread is inside free(b), including the points in
+   the middle of _free(b) where b's neighbours are already off the free lists *)
+Theorem C14_nested_free_in_free : forall p v h b,
+  free_re lock_reentrant (Some (p, v)) h b =
+  if rpoint_eqb p RLocked then free (free_deferred h v) b
+  else do h' <- free h b; OK (free_deferred h' v).
+Proof. exact nested_free_in_free. Qed.
+Print Assumptions C14_nested_free_in_free.
+
+(* hence such calls never raise and keep the invariant (these are also instances of C14_step) *)
+Theorem C14_nested_free_safe : forall pg h, pg_ok pg -> HeapInv h ->
+  (forall n p v, 0 <= n < maxsize -> In v (alloc h) -> ~ In v (pending h) ->
+     exists b h', malloc_re lock_reentrant pg (Some (p, v)) h n = OK (b, h') /\ HeapInv h') /\
+  (forall b p v, In b (alloc h) -> ~ In b (pending h) -> In v (alloc h) -> ~ In v (pending h) -> v <> b ->
+     exists h', free_re lock_reentrant (Some (p, v)) h b = OK h' /\ HeapInv h').
+Proof.
+  intros pg h Hpg HI. split.
+  - intros n p v Hn Hv Hnp. apply malloc_re_ok; assumption.
+  - intros b p v Hb Hnb Hv Hnp Hne. apply free_re_ok; assumption.
+Qed.
+Print Assumptions C14_nested_free_safe.
+
+(* without a finaliser the instrumented functions are malloc and free themselves *)
+Theorem C14_nested_none : forall re pg h n b,
+  malloc_re re pg None h n = malloc pg h n /\ free_re re None h b = free h b.
+Proof. intros. split; [apply malloc_re_none|apply free_re_none]. Qed.
+Print Assumptions C14_nested_none.
+
+(* why the deferral is needed (refutation for a RE-ENTRANT lock, by computation): if the nested
+   acquire succeeded, free(Y) running inside free(X) just after X's free left neighbour P was taken
+   off the free lists does not see P, and the heap ends with two adjacent free blocks
+   Y = [0,768) and P+X = [768,2304) -- C14_coalesced fails *)
+Example C14_reentrant_lock_refuted :
+  exists h h' x y,
+    run 4096 (heap_init 4096) [Malloc 768; Malloc 768; Malloc 768; Malloc 768; Free (0, 768, 1536)] = OK h /\
+    free_re true (Some (RPrev, (0, 0, 768))) h (0, 1536, 2304) = OK h' /\
+    In x (F h') /\ In y (F h') /\ b_arena x = b_arena y /\ b_stop x = b_start y.
+Proof.
+  eexists. eexists. exists (0, 0, 768), (0, 768, 2304).
+  split; [vm_compute; reflexivity|]. split; [vm_compute; reflexivity|].
+  cbn. auto 10.
+Qed.
 
 (* non-vacuity: a concrete history with splitting, a deferred free, coalescing on both sides,
    reuse and a second arena satisfies valid_run, and the theorem's conclusion computed on it *)
@@ -171,4 +243,25 @@ Example C14_witness_result :
   exists h, run 64 (heap_init 64) ex_ops = OK h /\
             alloc h = [(2, 0, 200); (1, 0, 8); (0, 0, 64)] /\
             F h = [(2, 200, 256); (1, 8, 128)] /\ arenas h = [64; 128; 256].
+Proof. eexists. split; [vm_compute; reflexivity|]. repeat split. Qed.
+
+(* non-vacuity for the re-entrant ops: frees issued from inside a malloc (while the remainder is
+   being merged) and from inside a free (left neighbour just absorbed) *)
+Definition ex_ops_nested : list op :=
+  [Malloc 768; Malloc 768; Malloc 768; Malloc 768; Free (0, 768, 1536);
+   FreeRe (0, 1536, 2304) RPrev (0, 0, 768); MallocRe 2304 RNext (0, 2304, 3072); Malloc 8].
+
+Example C14_witness_nested_valid : pg_ok 4096 /\ valid_run 4096 (heap_init 4096) ex_ops_nested.
+Proof.
+  split; [split; reflexivity|].
+  unfold ex_ops_nested.
+  repeat (cbn [valid_run]; split; [cbn [valid_op]; unfold maxsize; cbn; intuition (try lia; try congruence) |
+                  intros x h' E; vm_compute in E; inversion E; subst x h'; clear E]);
+  exact I.
+Qed.
+
+Example C14_witness_nested_result :
+  exists h, run 4096 (heap_init 4096) ex_ops_nested = OK h /\
+            alloc h = [(0, 2304, 2312); (0, 0, 2304)] /\ F h = [(0, 2312, 4096)] /\ arenas h = [4096] /\
+            pending h = [].
 Proof. eexists. split; [vm_compute; reflexivity|]. repeat split. Qed.
